@@ -20,6 +20,17 @@ Definition verdict (w : list nat) : option nat := verdict_from (Running state_st
 
 (* the same document judged by the hand-written grammars (independent of the generated tables) *)
 Definition in_code_grammar (w : list nat) : bool := sm_accepts code_grammar (map ev_of w).
+(* index of the first event the stack machine of the code's grammar refuses (999: all events pass but the document is
+   not complete); None = accepted.  By run_refines it must be the automaton's verdict. *)
+Fixpoint grammar_verdict_from (k : stack tag) (i : nat) (w : list nat) : option nat :=
+  match w with
+  | [] => match k with [(None, 1)] => None | _ => Some 999 end
+  | e :: r => match sstep code_grammar k (ev_of e) with None => Some i | Some k' => grammar_verdict_from k' (S i) r end
+  end.
+Definition grammar_verdict (w : list nat) : option nat := grammar_verdict_from [(None, 0)] 0 w.
+Definition same_verdict (a b : option nat) : bool :=
+  match a, b with None, None => true | Some x, Some y => Nat.eqb x y | _, _ => false end.
+Definition verdicts_agree (w : list nat) : bool := same_verdict (verdict w) (grammar_verdict w).
 Definition in_xsd_grammar (w : list nat) : bool := sm_accepts xsd_grammar (map ev_of w).
 
 Definition depth_after (d c : nat) : option nat :=
@@ -35,7 +46,7 @@ Fixpoint enum_from (fuel d : nat) (o : outcome) (rp : list nat) : list (list nat
       | Some d' =>
         let rp' := c :: rp in
         let w := rev rp' ++ repeat 0 d' in
-        (w, verdict w, in_code_grammar w, in_xsd_grammar w) ::
+        (w, verdict w, verdicts_agree w, in_xsd_grammar w) ::
         match step o (ev_of c) with
         | Failed _ => []
         | o' => match d' with 0 => [] | _ => enum_from fuel' d' o' rp' end      (* the root is closed: the document is over *)
@@ -45,5 +56,5 @@ Fixpoint enum_from (fuel d : nat) (o : outcome) (rp : list nat) : list (list nat
 (* the first event of a document is an open tag *)
 Definition enum (n : nat) : list (list nat * option nat * bool * bool) :=
   flat_map (fun c => let w := [c; 0] in
-                     (w, verdict w, in_code_grammar w, in_xsd_grammar w) :: match step (Running state_start) (ev_of c) with Failed _ => [] | o' => enum_from n 1 o' [c] end)
+                     (w, verdict w, verdicts_agree w, in_xsd_grammar w) :: match step (Running state_start) (ev_of c) with Failed _ => [] | o' => enum_from n 1 o' [c] end)
            (seq 2 (length all_tags)).
